@@ -9,6 +9,7 @@ mod int;
 mod vdm;
 mod http;
 mod locks;
+mod reader;
 mod obs;
 mod prng;
 mod proto;
@@ -95,6 +96,7 @@ fn main() {
         "c20" => http::run(&args, &mut model),
         "c16" => timer::run(&args, &mut model),
         "c17" => locks::run(&args, &mut model),
+        "c04" => reader::run(&args, &mut model),
         f => {
             eprintln!("unknown family {}", f);
             std::process::exit(2);
